@@ -17,7 +17,7 @@ CHECKS = {
     "C18": dict(
         engine="s3sim", category="exploration", design_ref="DESIGN.md §4 C18",
         technique="deterministic simulation with fault injection: the real poll_chunks under tokio's paused clock against a simulated rotating bucket, uploader (attempt-adaptive / time-scripted) and scripted consumer; transport faults, clock skew, stop/drop at every scheduling point; online and history oracles; seeded search with tape minimisation and replay",
-        text="One polling session per run: start directory biased to 997/998/999/1/2, 1..55 chunks present, 0..997 older volumes; chunks become visible after 0/1/2 failed attempts, at scripted times (4/7/11 s, bursts, long gaps) or never; consumer stops / drops the chunk or stats receiver after k deliveries; transient 404, 5xx/403, request failures, body cuts, listing 5xx, latency, slow bodies, one start-up fault, clock skew/jump. Oracle: first delivery inside the linearisation window of 'newest chunk', strictly advancing series with 999->1 wrap, payload/key/upload time of every delivery against the reference bucket, Ok only after stop with <= 1 later delivery, PollingAsyncError only with a dropped receiver, ExpectedChunkNotFound only after >= 3 failed attempts, start-up errors only with an injected cause, bounded virtual-time liveness, no panic. Thorough adds complete rotations through all 999 directories. Sampling of schedules and fault sequences; evidence, not proof.",
+        text="One polling session per run: start directory biased to 997/998/999/1/2, 1..55 chunks present, 0..997 older volumes; chunks become visible after 0/1/2 failed attempts, at scripted times (4/7/11 s, bursts, long gaps) or never; consumer stops / drops the chunk or stats receiver after k deliveries; transient 404, 5xx/403, request failures, body cuts, listing 5xx and 404, latency, slow bodies, one start-up fault, clock skew/jump, a client clock that moves between reads. Oracle: first delivery inside the linearisation window of 'newest chunk', strictly advancing series with 999->1 wrap, payload/key/upload time of every delivery against the reference bucket, Ok only after stop with <= 1 later delivery, PollingAsyncError only with a dropped receiver, ExpectedChunkNotFound only after >= 3 failed attempts, start-up errors only with an injected cause, bounded virtual-time liveness, no panic. Thorough adds complete rotations through all 999 directories. Sampling of schedules and fault sequences; evidence, not proof.",
         note="Trusted: history model (55-chunk volumes, a directory about to be reused is empty, second-resolution monotone Last-Modified), tokio's paused clock, the scripted consumer acting only at transport scheduling points (the poller touches its channels only there). A response that never arrives is not injected."),
     "C19": dict(
         engine="s3sim", category="exploration", design_ref="DESIGN.md §4 C19",
@@ -27,27 +27,27 @@ CHECKS = {
     "C03": dict(
         engine="streamsim", category="fault_enumeration", design_ref="DESIGN.md §4 C03",
         technique="deterministic simulation: message streams from reference ICD encoders served through a simulated storage device (short reads, EINTR, end of file at every byte) to the real decode_messages / Record::messages, compared with the reference record",
-        text="Streams of 0..300 messages over all 256 type codes (type-31 of any shape incl. permuted pointer tables) are decoded through SimReader in three batches: clean (count, order, header, kind, equality with the message decoded alone, reader position), short reads + EINTR (identical list), and an end of file at every byte of small streams / at every boundary -1/0/+1/+27/+28/+29 and drawn offsets of large ones (Ok(prefix) in a header fragment, Err inside a body). Fault enumeration: the cut positions of small streams are enumerated completely, stream shapes are sampled.",
+        text="Streams of 0..300 messages over all 256 type codes (type-31 of any shape incl. permuted pointer tables) are decoded through SimReader in three batches: clean (count, order, header, kind, equality with the message decoded alone, reader position), short reads + EINTR (identical list), an end of file at every byte of small streams / at every boundary -1/0/+1/+27/+28/+29 and drawn offsets of large ones (Ok(prefix) in a header fragment, Err inside a body), and the same stream embedded after a junk prefix with the reader already positioned at its start. Fault enumeration: the cut positions of small streams are enumerated completely, stream shapes are sampled.",
         note="Trusted: the reference encoders' reading of ICD 2620002W framing; SimReader's Cursor-like seek semantics. Hard I/O errors are outside the statement and not injected here."),
     "C04": dict(
         engine="streamsim", category="fault_enumeration", design_ref="DESIGN.md §4 C04",
         technique="deterministic simulation with fault injection: stored-byte damage, field-directed extremes, random images and device faults (short reads, EINTR, hard I/O error, failing seek, EOF) served through a simulated device to every decode entry point; panic capture, device-operation budget and counting allocator as oracles",
-        text="Every decoding entry point (decode_messages, header, contents for all 256 type codes, type-31, RDA status, VCP, clutter filter map) plus radial()/into_radial() of whatever decoded is driven over damaged valid streams, field-directed extremes at known offsets, random images, every prefix of small streams under device faults, and crafted memory-amplification attempts. Oracle: no panic (catch_unwind, overflow checks and debug assertions on), operation budget 64*len+100000, heap peak <= 8 MiB + 64*len. Sampling of an unbounded input space; the fault kinds are enumerated, the inputs are not.",
+        text="Every decoding entry point (decode_messages, header, contents for all 256 type codes, type-31, RDA status, VCP, clutter filter map) plus radial()/into_radial() of whatever decoded is driven over damaged valid streams, field-directed extremes at known offsets, random images, every prefix of small streams under device faults, crafted memory-amplification attempts (incl. chains of messages whose huge block covers their successors), valid messages beyond ICD ranges (gates > 1840, arbitrary code bytes, VCP size/cut-count extremes), a quarter of the runs with trace logging enabled. Oracle: no panic (catch_unwind, overflow checks and debug assertions on), operation budget 64*len+100000, heap peak <= 8 MiB + 64*len. Sampling of an unbounded input space; the fault kinds are enumerated, the inputs are not.",
         note="Trusted: counting global allocator (heap only, single-threaded worker), wall-clock watchdog for loops that never touch the device. Stack depth and CPU time are not bounded."),
     "C06": dict(
         engine="s3sim", category="fault_enumeration", design_ref="DESIGN.md §4 C06",
         technique="deterministic simulation with fault injection: damaged, truncated, short and empty objects stored in a simulated bucket, fetched with the real download_file/download_chunk through the reqwest::get seam (short object, mid-body connection cut, framed bodies) and handed to the whole volume/record/chunk API under panic capture",
-        text="Objects (every length 0..=64 over four alphabets x six size-prefix variants; every truncation point of small valid volumes and chunks; valid volumes with stored-byte damage, size-prefix extremes and bzip2 damage) are downloaded through the simulated endpoint and every public operation of Chunk, File and Record (incl. decompress -> messages, scan, Debug) is applied. Oracle: value or error, no panic, returns, record list stays inside the file, a cut connection is an error. The boundary space is enumerated completely; damaged volumes are sampled.",
+        text="Objects (every length 0..=64 over four alphabets x six size-prefix variants; every truncation point of small valid volumes and chunks; valid volumes with stored-byte damage, size-prefix extremes, bzip2 damage and payloads damaged or cut before compression) are downloaded through the simulated endpoint and every public operation of Chunk, File and Record (incl. decompress -> messages, scan, Debug) is applied. Oracle: value or error, no panic, returns, record list stays inside the file, a cut connection is an error. The boundary space is enumerated completely; damaged volumes are sampled.",
         note="Trusted: in-process endpoint and reqwest body collection; memory is outside C06's statement. Relies on the C04 repairs because messages()/scan() run the decoder."),
     "C13": dict(
         engine="streamsim", category="fault_enumeration", design_ref="DESIGN.md §4 C13",
         technique="deterministic simulation: clutter filter maps from a reference encoder served through a simulated device (short reads, EINTR, end of file at every byte / structural boundary) to the real decode_clutter_filter_map, compared with the encoded structure",
-        text="Maps with 0..=255 segments x 360 azimuths x 0..=25 zones (one azimuth sometimes up to 65535 zones) are decoded clean and under short reads/EINTR and compared field by field with the reference structure (segment numbering, azimuth 0..=359, zone order and values, op-code meaning, generation date-time); an end of file at every byte of one-segment maps and at sampled structural boundaries -1/0/+1 of large maps must be an error.",
+        text="Maps with 0..=255 segments x 360 azimuths x 0..=25 zones (one azimuth sometimes up to 65535 zones) are decoded clean and under short reads/EINTR and compared field by field with the reference structure (segment numbering, azimuth 0..=359, zone order and values, op-code meaning, generation date-time); an end of file at every byte of one-segment maps and at sampled structural and segment boundaries -1/0/+1 of large maps must be an error.",
         note="Trusted: reference encoder's reading of ICD table XIV. Segment numbering base is not fixed by the statement; only consecutiveness is checked."),
     "C15": dict(
         engine="s3sim", category="exploration", design_ref="DESIGN.md §4 C15",
         technique="deterministic simulation: real get_latest_volume/search against an in-process S3 endpoint behind the reqwest::get seam, seeded + (thorough) exhaustive bucket shapes, request log as call-count oracle, request-failure/latency injection",
-        text="The real get_latest_volume (N=999) and the guarded search wrapper (N=1..64) run against a simulated rotating bucket put into a shape (N, newest, populated); the oracle is the reference bucket's newest directory and the endpoint's own request log. Quick: all shapes N<=24 + 20k seeded production shapes + 3k faulted runs; thorough: every shape for N<=64 and all 999x1000 production shapes. Exploration (sampling) in quick, complete enumeration of the shape space in thorough - still executions of the real code, not a proof.",
+        text="The real get_latest_volume (N=999) and the guarded search wrapper (N=1..64) run against a simulated rotating bucket put into a shape (N, newest, populated); the oracle is the reference bucket's newest directory and the endpoint's own request log. Fault section: request failures and HTTP 404/500/503/403 on listings (right volume or error, never a wrong one); concurrent section: 2-3 discoveries for different sites joined on one runtime (each reports its own requests); client clock offset +-300 s in half of the runs. Quick: all shapes N<=24 + 30k seeded production shapes + 6k faulted + 1.2k concurrent; thorough: every shape for N<=64 and all 999x1000 production shapes + 120k faulted + 60k concurrent. Exploration (sampling) in quick, complete enumeration of the shape space in thorough - still executions of the real code, not a proof.",
         note="Trusted: the in-process endpoint's S3 listing semantics (byte-order keys, string-prefix match, max-keys), reqwest::Response built from http::Response, tokio's paused clock. Upload times are distinct whole seconds. Not covered: the layers below reqwest::get."),
 }
 
